@@ -314,6 +314,12 @@ func bodyC33(c c33Case, x *vkit.Ctx) {
 				return p
 			}
 			nameLen := op.NameLen
+			// (one query in two carries the prefix of serf's own queries in its name:
+			// the limit is a limit on what is sent, whatever it is called)
+			internalName := op.CC
+			if internalName {
+				nameLen = max(nameLen, len(serf.InternalQueryPrefix)+1)
+			}
 			local := n.Serf.Memberlist().LocalNode()
 			encLen := func(nl, pl int) int {
 				p := params()
@@ -347,6 +353,10 @@ func bodyC33(c c33Case, x *vkit.Ctx) {
 				plen = fitLen(c.QLimit+op.Delta, func(p int) int { return encLen(nameLen, p) })
 			}
 			name := strings.Repeat("q", nameLen)
+			if internalName {
+				name = serf.InternalQueryPrefix + strings.Repeat("q", nameLen-len(serf.InternalQueryPrefix))
+				x.Label("query-with-internal-prefix")
+			}
 			payload := fillBytes(plen, oi)
 			if near(encLen(nameLen, plen), c.QLimit) {
 				nontrivial = true
